@@ -19,7 +19,9 @@ RULE = ("One evaluation = one seeded execution of two real Managers (the "
         "regime: responsive (pong latency drawn strictly below one interval, "
         "incl. just under), silent from a drawn time on (before the first "
         "pong, after k pongs, between ping and pong), slow (latency above two "
-        "intervals), with an optional loss or stop at a drawn time. "
+        "intervals), with an optional loss or stop at a drawn time; and "
+        "reconnect_silent: the first connection is cut at a drawn time, a "
+        "replacement is negotiated and the peer goes silent on it. "
         "Non-trivial: at least one ping/pong round trip happened and (a "
         "stall window was applied or a drop/stop occurred). Distinct: "
         "event-log digests among non-trivial runs.")
@@ -45,7 +47,8 @@ INTERVALS = (0.5, 1.0, 5.0, 30.0, 60.0)
 
 def configs(tier):
     return [{"regime": r} for r in ("responsive", "silent", "slow",
-                                    "responsive", "silent", "stop", "loss")]
+                                    "responsive", "silent", "stop", "loss",
+                                    "reconnect_silent")]
 
 
 def run_one(seed, tape, opts):
@@ -147,6 +150,9 @@ def run_one(seed, tape, opts):
                 sim.note("fault.cut")
                 sim.net.cut(eL.link)
         R.callLater(cut_at, do_cut)
+    if regime == "reconnect_silent":
+        return _reconnect_silent(seed, tape, w, interval, first_conn, eL,
+                                 t_conn)
     sim.run(20000, max_time=horizon + 1)
     watch()
     w.finish()
@@ -187,8 +193,8 @@ def run_one(seed, tape, opts):
         if cut_at is not None and not viol:
             # after the loss a new connection comes up and pings resume
             c2 = L.m._connection
-            if c2 is not None and c2 is not first_conn and L.m._timer is None \
-                    and w.l2_end[c2].alive:
+            if c2 is not None and c2 is not first_conn and \
+                    not _timer_pending(L.m) and w.l2_end[c2].alive:
                 V("C16.monitor_not_resumed", "monitoring resumes on the next "
                   "connection", "new connection but no ping timer pending")
     if regime == "loss" and not viol:
@@ -203,11 +209,11 @@ def run_one(seed, tape, opts):
             sim.note("probe.loss_not_noticed_by_leader_yet")
     if not viol:
         # no ping timer while there is no connection / after stop
-        if L.m._connection is None and L.m._timer is not None:
+        if L.m._connection is None and _timer_pending(L.m):
             V("C16.timer_after_loss", "monitoring stops when the connection "
               "is lost", "no connection but a ping timer is pending")
         if stopped[0]:
-            if L.m._timer is not None and L.m._timer.active():
+            if _timer_pending(L.m):
                 V("C16.timer_after_stop", "monitoring stops when dilation is "
                   "stopped", "ping timer still pending after stop()")
     nontrivial = len(rx_times) > 2 and (bool(stall_windows) or
@@ -225,6 +231,93 @@ def run_one(seed, tape, opts):
                        "last_traffic": round(t_last - t_conn, 3),
                        "dropped_at": None if drop_time[0] is None else
                        round(drop_time[0] - t_conn, 3)}}
+
+
+def _timer_pending(m):
+    return m._timer is not None and m._timer.active()
+
+
+def _reconnect_silent(seed, tape, w, interval, first_conn, eL, t_conn):
+    """The first connection is lost for an outside reason at a drawn time, a
+    replacement is negotiated, and the peer goes silent on the replacement:
+    the Leader must drop that one too (monitoring resumed)."""
+    sim = w.sim
+    L = w.leader
+    R = sim.reactor
+    viol = []
+    cut_at = interval * tape.pick((0.2, 0.9, 1.0, 1.5, 2.7), "cut_at")
+
+    def do_cut():
+        if eL.link.up:
+            sim.ev("cut")
+            sim.note("fault.cut")
+            sim.net.cut(eL.link)
+    R.callLater(cut_at, do_cut)
+
+    def replaced():
+        c = L.m._connection
+        return c is not None and c is not first_conn and w.both_connected()
+    sim.run(20000, until=replaced, max_time=cut_at + 6 * interval)
+    if not replaced():
+        sim.note("probe.no_replacement_connection")
+        w.finish()
+        return {"violation": None, "nontrivial": False,
+                "digest": sim.hexdigest(), "trace": sim.trace,
+                "stats": {"steps": sim.steps, "sim_s": sim.now() - 1000.0,
+                          "notes": sim.notes},
+                "sample": {"seed": seed, "regime": "reconnect_silent"}}
+    c2 = L.m._connection
+    e2 = w.l2_end[c2]
+    t2 = sim.now()
+    rx = [t2]
+    e2.link.tap = lambda end, data: rx.append(sim.now()) if end is e2 else None
+    silent_at = interval * tape.pick((0.0, 0.4, 1.0, 1.3, 2.6), "silent2")
+
+    def go_silent():
+        if e2.alive:
+            e2.stalled = True
+            sim.ev("stall")
+            sim.note("fault.stall")
+    R.callLater(silent_at, go_silent)
+    dropped = [None]
+
+    def watch():
+        if dropped[0] is None and (not e2.alive or e2.transport.disconnecting):
+            dropped[0] = sim.now()
+            sim.ev("leader_dropped_replacement")
+    sim.after_step = watch
+    r2 = sim.run(20000, until=lambda: dropped[0] is not None,
+                 max_time=silent_at + 6 * interval)
+    watch()
+    w.finish()
+    t_last = max(rx)
+    if dropped[0] is None:
+        viol.append({"key": "C16.replacement_not_monitored", "clause":
+                     "monitoring resumes on the next connection: a silent "
+                     "peer is dropped no later than the second timer expiry "
+                     "after the last answered ping",
+                     "detail": "interval %.1f: first connection cut at t+%.2f,"
+                     " replacement up at t+%.2f, peer silent from +%.2f on it,"
+                     " last traffic +%.2f; not dropped %.2f s later (%s)" %
+                     (interval, cut_at, t2 - t_conn, silent_at, t_last - t2,
+                      sim.now() - t_last, "nothing left scheduled: no ping "
+                      "timer exists" if r2 == "idle" else r2)})
+    elif dropped[0] > t_last + 3 * interval + 1e-6:
+        viol.append({"key": "C16.replacement_dropped_late", "clause":
+                     "dropped under three ping intervals after the last "
+                     "answered ping", "detail": "interval %.1f: last traffic "
+                     "%.2f, dropped %.2f" % (interval, t_last - t2,
+                                             dropped[0] - t2)})
+    return {"violation": viol[0] if viol else None, "nontrivial": True,
+            "digest": sim.hexdigest(), "trace": sim.trace,
+            "stats": {"steps": sim.steps, "sim_s": sim.now() - 1000.0,
+                      "notes": sim.notes},
+            "sample": {"seed": seed, "regime": "reconnect_silent",
+                       "interval": interval, "cut_at": cut_at,
+                       "replacement_at": round(t2 - t_conn, 3),
+                       "silent_at": silent_at,
+                       "dropped_at": None if dropped[0] is None else
+                       round(dropped[0] - t2, 3)}}
 
 
 if __name__ == "__main__":
